@@ -147,7 +147,12 @@ def main():
         problems.append("harness does not build against /repo: " + outb[-1500:])
     else:
         for (comp, streams, kwargs) in spec["components"](tier):
-            r = vlib.run_component(comp, streams, seed, tier, "%s_%s_%s" % (pid, comp, "_".join(streams))[:60], **kwargs)
+            if comp == "zorro":
+                r = vlib.run_zorro_component(seed, tier, "%s_zorro" % pid)
+            elif comp in vlib.CUSTOM:
+                r = vlib.CUSTOM[comp](seed, tier, "%s_%s" % (pid, comp))
+            else:
+                r = vlib.run_component(comp, streams, seed, tier, "%s_%s_%s" % (pid, comp, "_".join(streams))[:60], **kwargs)
             comp_results.append((comp, streams, r))
 
     disagreements = []
